@@ -199,6 +199,11 @@ func (c *CaveatSet) UnmarshalJSON(b []byte) error {
 		if err := json.Unmarshal(jcavs[i].Body, &c.Caveats[i]); err != nil {
 			return err
 		}
+
+		// a JSON null body sets the interface itself to nil
+		if c.Caveats[i] == nil {
+			return fmt.Errorf("caveat %d (%s): null body", i, jcavs[i].Type)
+		}
 	}
 
 	return nil
